@@ -181,6 +181,10 @@ class History(object):
         acc = self.ctrl.log
         self.ctrl.log = []
         e = [name, vid, jargs, out, acc, nwarn, after]
+        if name == "seek":
+            # not read by the specification: the view's own len(), so that a rejection of a seek from the end
+            # can be keyed by what exactly went wrong (see key_of)
+            e.append(opt(lambda: len(v)))
         self.ev.append(e)
         return e
 
@@ -416,6 +420,12 @@ def ops_of(ev):
 
 def key_of(tr, i, clauses):
     op = tr["ev"][i - 1][0]
+    if "SeekFromEnd" in clauses and op == "seek":
+        e = tr["ev"][i - 1]
+        n, after, vlen = e[2][0], e[6], (e[7] if len(e) > 7 else [])
+        if after and vlen and after[0] == vlen[0] - n:
+            return "SeekFromEnd in seek: seek(n, 2) lands at len - n"
+        return "SeekFromEnd in seek: seek(%s, 2) on a view of length %s lands at %s" % (n, vlen, after)
     for c in ("ConfinedAtNegativePosition", "ConfinedBeyondEnd", "SeekFromEnd", "Confined"):
         if c in clauses:
             return "%s in %s" % (c, op)
